@@ -179,10 +179,8 @@ func JudgeC04(sc *Scenario, tr *Transcript) *Verdict {
 				sp := &v.Spec.Shards[s]
 				onlyOversize := len(sp.Held) > 0 && sp.HeadExtra == 0 && (sp.HashEqual || sp.Head2 == 0)
 				for _, h := range sp.Held {
-					// settled copies only (normal state, healthy, three scrapes): those are what relief looks at and
-					// gives up on; what the coordinator does about a shard that is over its limit because of copies
-					// relief does not consider at all (in hand-over, not yet settled) is not judged here
-					if !((L != 0 && h.Series > L) || h.Total > P) || h.State != "" || h.Health != "up" || h.Times < 3 {
+					// in whatever state the copies are (settled, failing, in hand-over, not yet scraped three times)
+					if !((L != 0 && h.Series > L) || h.Total > P) {
 						onlyOversize = false
 					}
 				}
